@@ -137,6 +137,13 @@ func maybeMarkEmptyMapping(
 		return
 	}
 
+	// Only a rule written with an empty External list means "drop" (replace) or
+	// "no-op" (append). A rule whose external addresses all belong to a family
+	// its Networks exclude has nothing to map and stays inert.
+	if len(ruleMapping.rule.External) > 0 {
+		return
+	}
+
 	if hasLocalAddr {
 		if ruleMapping.isFamilyAllowed(localIsIPv4) {
 			family := ruleMapping.mappingForFamily(localIsIPv4)
